@@ -48,7 +48,7 @@ def eea_listen(ctx: Ctx, chk, prune: bool) -> None:
     escape_rule(ctx, chk, rule, entries, lambda exc, site: eea.issub(exc, BASE_ERROR), eea)
     chk.floor(rule, "version contexts", len(entries), 5)
     chk.floor(rule, "frames analysed", eea.frames_analysed, 60)
-    chk.floor(rule, "escaping (exception, raise site) pairs examined", chk.rules[rule]["obligations"], 25)
+    chk.floor(rule, "escaping (exception, raise site) pairs examined", chk.rules[rule]["obligations"], 15)
 
 
 def hier(ctx: Ctx, chk) -> None:
